@@ -176,7 +176,7 @@ func runC02(c *core.Ctx) {
 						}
 					}
 					for x, f := range want.Foods {
-						if bad == "" && (g.Foods[x].Name != f.Name || !numOK(g.Foods[x].V, f.Qty, 2, absRat(f.Qty), w.Exact)) {
+						if bad == "" && (g.Foods[x].Name != f.Name || !numOK(g.Foods[x].V, f.Qty, 2, f.QtyAbs, w.Exact)) {
 							bad = fmt.Sprintf("food row %d: (%q,%s), want (%q,%s)", x, g.Foods[x].Name, g.Foods[x].Raw, f.Name, rs(f.Qty))
 						}
 					}
